@@ -256,7 +256,7 @@ def work(hists, tier, open_ids):
 
 def run(tier):
     run = core.Run(PROP, tier)
-    depth = 3  # quick: the thinner menu and 36 option settings; thorough: the rich menu and all 96 settings
+    depth = 3  # quick: the thinner menu and 20 option settings; thorough: the rich menu and all 96 settings
     ex = explorer.Explorer(dag_menu_quick if tier == "quick" else dag_menu)
     states = ex.run(depth)
     hists = core.rotate([s.hist for s in states] + raw_sql_pipelines() + shared_step_in_two_column_orders(), run.seed)
